@@ -8,6 +8,9 @@
 //! * [`payload`]  — `u8` and `Item{id, tag}` payload vtables (instrumented)
 //! * [`machine`]  — generic choice-driven guest program over the public API
 //! * [`alloc`]    — counting global allocator (guest-mode ledger)
+//! * [`subcall`]  — instrumented `Subtask` implementation + call program (C21)
+//! * [`work`]     — tracked futures, waker spy, Waker-based channel, task programs (C22, C23)
+//! * [`scen2`]    — scenarios of C21-C23; [`monitors2`] — their oracles
 pub mod alloc;
 pub mod builtins;
 pub mod cabi;
